@@ -47,6 +47,29 @@ def exactB : Bytes → List Phase → Bool
   | U, .write _ r :: rest => exactB (U ++ r.flatten) rest
   | U, .read P :: rest => exactAtB P U && exactB [] rest
 
+/-- direct Boolean reading of `Doomed` -/
+def doomedB : Bytes → Nat → List Phase → Bool
+  | _, _, [] => false
+  | U, B, .write _ r :: rest => doomedB (U ++ r.flatten) B rest
+  | U, B, .read P :: rest =>
+    ((List.range (min B U.length + 1)).all fun j => !P (U.take j)) ||
+      (exactAtB P U && U.length ≤ B && doomedB [] (B - U.length) rest)
+
+/-- per read phase of the lossless walk: (length of its unread stream, first prefix length at which
+    its predicate fires, whether that is exactly the end) — computed once per sweep -/
+def fireTable : Bytes → List Phase → List (Nat × Option Nat × Bool)
+  | _, [] => []
+  | U, .write _ r :: rest => fireTable (U ++ r.flatten) rest
+  | U, .read P :: rest =>
+    let ff := (List.range (U.length + 1)).find? fun j => P (U.take j)
+    (U.length, ff, ff == some U.length) :: fireTable [] rest
+
+/-- `Doomed` evaluated from the table (same recursion as `doomedB`) -/
+def doomedT : Nat → List (Nat × Option Nat × Bool) → Bool
+  | _, [] => false
+  | B, (len, ff, ex) :: rest =>
+    (match ff with | none => true | some f => B < f) || (ex && len ≤ B && doomedT (B - len) rest)
+
 def errName : Err → String
   | .transport => "transport"
   | .connection => "connection"
@@ -74,8 +97,8 @@ def schedules : List (List Actor) :=
 
 def addSet (l : List String) (x : String) : List String := if l.contains x then l else l ++ [x]
 
-def cliCase (prog : List Phase) (stale : List Bytes) (kind : String) (k : Nat) (exact : Bool)
-    (fuel : Nat) : String :=
+def cliCase (prog : List Phase) (stale : List Bytes) (kind : String) (k : Nat)
+    (table : List (Nat × Option Nat × Bool)) (fuel : Nat) : String :=
   let total := prog.foldl (fun acc p => match p with | .write _ r => acc + r.flatten.length | _ => acc) 0
   let s0 : St :=
     if kind == "werr" then
@@ -85,7 +108,7 @@ def cliCase (prog : List Phase) (stale : List Bytes) (kind : String) (k : Nat) (
   let o0 : Op := { prog := prog, rb := [], outs := [] }
   let dom :=
     if kind == "werr" then k < wneed prog
-    else exact && k + stale.flatten.length < need stale.flatten.length prog
+    else doomedT (k + stale.flatten.length) table
   let rs := schedules.map fun pat => simulate pat fuel 0 s0 o0 none
   let outs := rs.foldl (fun acc (r, _, _) => addSet acc (match r with | some r => resName r | none => "run")) []
   -- model time: under the two tick schedules the return comes at most maxAdj+1 ticks after the loss
@@ -160,10 +183,16 @@ def handleC06 : List String → String
       let cfg := mkCfg d (s2b exact) true [10]
       match phases.mapM (parsePhase cfg) with
       | some prog =>
-        let ex := exactB stale.flatten prog
+        let table := fireTable stale.flatten prog
+        let ex := table.all fun (_, _, e) => e
         let chunks := prog.foldl (fun acc p => match p with | .write _ r => acc + r.length + 1 | _ => acc + 1) 0
         let fuel := 4 * (chunks + stale.length) + 24
-        let rs := ks.map fun k => cliCase prog stale kind k ex fuel
+        let rs := ks.map fun k => cliCase prog stale kind k table fuel
+        -- the table evaluation of `Doomed` agrees with its direct reading (spot check)
+        let spot := [ks.head?, ks[ks.length / 2]?].all fun
+          | some k => kind == "werr" || doomedT (k + stale.flatten.length) table == doomedB stale.flatten (k + stale.flatten.length) prog
+          | none => true
+        if !spot then "bad-dom-table" else
         s!"{b2s ex} {need stale.flatten.length prog} {wneed prog} {maxAdjWrites prog} {";".intercalate rs}"
       | none => "bad-op"
     | _, _, _ => "bad-op"
